@@ -41,6 +41,8 @@ type Prog struct {
 	rpoCache      map[*ssa.Function]map[*ssa.BasicBlock]int
 	inPhi         map[*ssa.Phi]bool
 	inLinPhi      map[*ssa.Phi]bool
+	linFrame      *Frame
+	linArgs       map[*ssa.Parameter]Lin
 }
 
 var tyArgs = regexp.MustCompile(`\[[^\[\]]*\]`)
